@@ -690,7 +690,19 @@ package proxy
 //@   requires req != nil
 //@   ensures @nil_iff_sent_once: (result == nil ==> req.sentOn == old(req.sentOn) + 1) && (result != nil ==> req.sentOn == old(req.sentOn))
 //@   assigns *, req.sentOn
-//@ extern quiet (*shardManagerImpl).getShardOwner
+// C09 (routing among instances): the owner the router forwards to is an instance that claims the shard in the gossip
+// snapshot it read, and "no owner" is answered only when no instance in the snapshot claims it. (Was a quiet extern:
+// unconstrained result.)
+//@ contract (*shardManagerImpl).getShardOwner
+//@   shape sig=(sm *shardManagerImpl)(shard history.ClusterShardID)( string, bool);loops=range,range;lits=0;fv=
+//@   props C09
+//@   ensures @owner_claims_shard: result1 ==> (result0 in remoteShards) && (exists k string :: (k in remoteShards[result0].Shards) && remoteShards[result0].Shards[k].ID == shard)
+//@   ensures @no_owner_only_if_unclaimed: !result1 ==> (forall n string, k string :: { k in remoteShards[n].Shards } (n in remoteShards) && (k in remoteShards[n].Shards) ==> remoteShards[n].Shards[k].ID != shard)
+//@   assigns contents(sm.remoteNodeStates)
+//@   storepre remoteNodeStates: @read_only: false
+//@   deletepre remoteNodeStates: @read_only: false
+//@   loop 1 invariant forall n string, k string :: { k in remoteShards[n].Shards } (n in $seen) && (k in remoteShards[n].Shards) ==> remoteShards[n].Shards[k].ID != shard
+//@   loop 2 invariant forall k string :: { k in $seen } (k in $seen) ==> shards.Shards[k].ID != shard
 //@ extern quiet (*shardManagerImpl).GetProxyAddress
 //@ extern quiet (*shardManagerImpl).GetNodeName
 // Registry reads (were assumed externs): the answer is what the registry holds at the moment of the read (under the
@@ -734,6 +746,9 @@ package proxy
 //@   ensures @exactly_once_iff_true: result <==> ($sends + (old(routedMsg.Resp).sentOn - old(routedMsg.Resp.sentOn)) == 1)
 //@   ensures @never_twice: $sends + (old(routedMsg.Resp).sentOn - old(routedMsg.Resp.sentOn)) <= 1
 //@   callpre sendReplicationMessages: @local_first: $sends == 0
+// C09: what is forwarded goes to the instance getShardOwner named for THIS target shard, unchanged and under the same shard pair
+//@   callpre sendReplicationMessages: @to_the_owner_of_the_target: $peerNodeName == owner && ok && $targetShard == targetShard && $sourceShard == routedMsg.SourceShard && $resp == old(routedMsg.Resp)
+//@   callpre getShardOwner: @owner_of_the_target: $shard == targetShard
 //@ contract (*shardManagerImpl).DeliverAckToShardOwner
 //@   shape sig=(sm *shardManagerImpl)(sourceShard history.ClusterShardID,routedAck *RoutedAck,shutdownChan channel.ShutdownOnce,logger log.Logger,ack int64,allowForward bool)( bool);loops=;lits=2;fv=
 //@   props C09 C08 C04 C01 C20:lock+guard
@@ -743,6 +758,8 @@ package proxy
 //@   ensures @exactly_once_iff_true: result <==> ($sends + (old(routedAck.Req).sentOn - old(routedAck.Req.sentOn)) == 1)
 //@   ensures @never_twice: $sends + (old(routedAck.Req).sentOn - old(routedAck.Req.sentOn)) <= 1
 //@   callpre sendAck: @local_first: $sends == 0 && allowForward
+//@   callpre sendAck: @to_the_owner_of_the_source: $peerNodeName == owner && ok && $req == old(routedAck.Req)
+//@   callpre getShardOwner: @owner_of_the_source: $shard == sourceShard
 
 // ---------------------------------------------------------------------------------------------
 // C08: watermark replay to a late target must not be able to crash the process: the channel it finds in the
